@@ -82,6 +82,8 @@ def shards(tier, seed, scale=1.0):
         out.append({'name': 'sets-%d' % s, 'kind': 'sets', 'shard': s, 'of': 4})
     for s in range(4):
         out.append({'name': 'real-%d' % s, 'kind': 'real', 'shard': s, 'of': 4, 'budget': 3 if tier == 'quick' else 4})
+    for s in range(4):
+        out.append({'name': 'unclosed-%d' % s, 'kind': 'unclosed', 'shard': s, 'of': 4, 'budget': 2 if tier == 'quick' else 3})
     return out
 
 
@@ -96,6 +98,8 @@ def run_shard(desc):
         return run_sets(desc, PROPERTY, select_c02)
     if desc['kind'] == 'real':
         return run_real(desc)
+    if desc['kind'] == 'unclosed':
+        return run_unclosed(desc)
     raise HarnessError(desc['kind'])
 
 
@@ -142,6 +146,58 @@ def run_real(desc):
                 if any(isinstance(x, str) for x in segs) or len(segs) > 1:
                     out.nontrivial(('real', text))
     out.sample({'stream': 'real', 'tree': [e[1] + ('/' if e[0] == 'd' else '') for e in REAL_TREE], 'patterns': idx // S})
+    return out
+
+
+UNCLOSED = ['@(', '?(', '+(', '*(', '!(', '[', '@(a|', '[!', '+(@(']
+
+
+def run_unclosed(desc):
+    """An opener that is never closed (`@(`, `[`, ...) is literal text; it must not change how the rest of the pattern is read.
+    Metamorphic on wcmatch: the pattern with the opener written raw accepts exactly the paths that the pattern with the opener
+    escaped accepts - in a segment before and in a segment after the enumerated pattern (globstars included)."""
+    out = Outcome()
+    out.exhaustive = True
+    s, S = desc['shard'], desc['of']
+    idx = 0
+    cfgs = [{'globstar': True}, {'globstar': True, 'dot': True}, {}, {'globstarlong': True}, {'globstar': True, 'matchbase': True}]
+    for segs in enum_pathpats(desc['budget'], atoms=(A.lit('a'), A.ANY, A.STAR), kinds='@*'):
+        idx += 1
+        if idx % S != s:
+            continue
+        text = A.render_path(A.PathPat(False, segs, False, 1))
+        seqs = [x for x in segs if not isinstance(x, str)]
+        alpha, _c = N.representatives(seqs, extra='', cap=2)
+        paths = [p_ for p_ in N.all_names(alpha + '/', 4) if not p_.startswith('/')]
+        for oi, op in enumerate(UNCLOSED):
+            esc = ''.join('\\' + c for c in op)
+            for where in ('before', 'after'):
+                if where == 'before':
+                    raw, lit, names = op + 'x/' + text, esc + 'x/' + text, [op + 'x/' + p_ for p_ in paths]
+                else:
+                    if ')' in text or ']' in text:
+                        continue          # the rest of the pattern would close the opener
+                    raw, lit, names = text + '/' + op + 'x', text + '/' + esc + 'x', [p_.rstrip('/') + '/' + op + 'x' for p_ in paths if p_.rstrip('/')]
+                if where == 'before' and (')' in text and '(' in op or ']' in text and '[' in op):
+                    continue
+                cfg = cfgs[(idx + oi) % len(cfgs)]
+                fl = lang.gl_flags(cfg) | G.EXTGLOB
+                try:
+                    with util.watchdog(5):
+                        a = set(G.globfilter(names, raw, flags=fl))
+                        b = set(G.globfilter(names, lit, flags=fl))
+                except util.HarnessBudget:
+                    out.stats['watchdog_skipped'] += 1
+                    continue
+                out.evaluations += len(names)
+                if a != b:
+                    d = sorted(a ^ b)[0]
+                    out.violation({'mode': 'unclosed', 'pattern': raw, 'escaped_form': lit, 'cfg': cfg, 'name': d, 'raw_accepts': d in a,
+                                   'problem': 'an unclosed opener changes how the rest of the pattern is read'},
+                                  size=len(raw) * 10 + len(d), bucket=('unclosed', op, where))
+                elif a and len(a) < len(names) and any(isinstance(x, str) for x in segs):
+                    out.nontrivial(('unclosed', raw))
+    out.sample({'stream': 'unclosed', 'openers': UNCLOSED, 'patterns': idx // S})
     return out
 
 
@@ -404,6 +460,11 @@ def replay(case):
         segs = R.split_path(case['name'])[1]
         bad = got and (len(segs) > npieces or (not inside and len(segs) != npieces))
         return (not bad), {'impl': got, 'pieces': npieces, 'segments': len(segs)}
+    if case.get('mode') == 'unclosed':
+        fl = lang.gl_flags(case['cfg']) | G.EXTGLOB
+        a = bool(G.globmatch(case['name'], case['pattern'], flags=fl))
+        b = bool(G.globmatch(case['name'], case['escaped_form'], flags=fl))
+        return a == b, {'raw': a, 'escaped': b}
     if case.get('mode') == 'real':
         from .. import fscommon as FC
         with FC.built_tree(REAL_TREE) as (root, _r):
@@ -415,6 +476,6 @@ def replay(case):
 
 
 def shrink(case):
-    if case.get('mode') in ('textinv', 'real'):
+    if case.get('mode') in ('textinv', 'real', 'unclosed'):
         return case
     return lang.shrink_case(case)
